@@ -89,6 +89,7 @@ func genC03(g *gen) {
 	g.note("corpus: signatures that meet a rejection bound with equality (zero-seed key)")
 	z := zeroKey()
 	g.op("dl.new z %s", hx(make([]byte, 48)))
+	g.op("dl.filled %s", hx(make([]byte, 48)))
 	corpus := loadCorpus("corner-pos", "corner-neg-zero", "corner-neg-nonzero", "hint-75", "hint-reject-edge", "z-accept-edge", "w0-accept-edge", "empty-hint-row")
 	for kind, msgs := range corpus {
 		lim := 1
@@ -112,6 +113,7 @@ func genC03(g *gen) {
 		d, _ := dilithium.NewDilithiumFromSeed(seed)
 		id := fmt.Sprintf("d%d", s)
 		g.op("dl.new %s %s", id, hx(seed[:]))
+		g.op("dl.filled %s", hx(seed[:])) // hypothesis `Expanded` of C03.verify_sign on this seed (evaluated by the model)
 		for k := 0; k < nmsgs; k++ {
 			n := lens[k%len(lens)]
 			g.signVerifyRoundtrip(id, d, g.bytes(n), k < 2 && n <= 1000)
